@@ -65,7 +65,9 @@ func H_C12_NoEffect() {
 		vAssert("c12.rollback-ok", tx.Rollback() == nil)
 	case 2:
 		pos := vChoose(len(ops) + 1)
-		big := make([]byte, seg) // entry larger than the segment
+		// an entry larger than the segment: by one byte (header + bucket + key + value = seg + 1) or by far
+		bigLens := []int{int(seg) - DataEntryHeaderSize - len(vKVBuckets[0]) - len("big") + 1, int(seg)}
+		big := make([]byte, bigLens[vChoose(2)])
 		err := db.Update(func(tx *Tx) error {
 			for i, o := range ops {
 				if i == pos {
